@@ -1,12 +1,12 @@
 #!/bin/bash
-# harvest_seed.sh <worktree> <seed-name> : copy a sub-agent's deliverables (seed/patch.diff, notes.md, demo/) into
+# harvest_seed.sh <worktree> <seed-name> [seed-dir] : copy a sub-agent's deliverables (<seed-dir>/patch.diff, notes.md, demo/; default seed-dir "seed") into
 # /verif/seeded/<seed-name>/ (without build output).  Confirmation (tools/confirm_seed.sh) and meta.json are separate.
 set -eu
-WT="$1"; NAME="$2"
+WT="$1"; NAME="$2"; SD="${3:-seed}"
 D=/verif/seeded/$NAME
 mkdir -p "$D"
-cp "$WT/seed/patch.diff" "$D/patch.diff"
-cp "$WT/seed/notes.md" "$D/notes.md" 2>/dev/null || true
+cp "$WT/$SD/patch.diff" "$D/patch.diff"
+cp "$WT/$SD/notes.md" "$D/notes.md" 2>/dev/null || true
 rm -rf "$D/demo"; mkdir -p "$D/demo"
-rsync -a --exclude target --exclude '*.log' --exclude Cargo.lock "$WT/seed/demo/" "$D/demo/"
+rsync -a --exclude target --exclude '*.log' --exclude Cargo.lock "$WT/$SD/demo/" "$D/demo/"
 du -sh "$D"
